@@ -1,6 +1,6 @@
 (* Entry point of the executable model: one case tree in, one result tree out. The first leaf selects
    the property, the second the operation. The harness sends the same case to the implementation. *)
-From ToughV Require Import Model.Base Model.Pct.
+From ToughV Require Import Model.Base Model.Pct Model.Json Model.CJson.
 
 Definition run_C16 (op : N) (a : list tree) : tree :=
   match op, a with
@@ -8,10 +8,25 @@ Definition run_C16 (op : N) (a : list tree) : tree :=
   | _, _ => T [L 999]
   end.
 
+Definition t_table (t : tree) : list (bytes * bytes) :=
+  map (fun kv => (t_bytes (t_nth kv 0), t_bytes (t_nth kv 1))) (t_list t).
+
+Definition run_C11 (op : N) (a : list tree) : tree :=
+  match a with
+  | [tbl; v] =>
+      let nfc := nfc_of_table (t_table tbl) in
+      let j := jv_of_tree 64 v in
+      of_opt of_bytes (if op =? 0 then canon_impl nfc j
+                       else if op =? 1 then canon_spec nfc j
+                       else canon_impl_old nfc j)
+  | _ => T [L 999]
+  end.
+
 Definition run_case (t : tree) : tree :=
   match t with
   | T (L p :: L op :: args) =>
       if p =? 16 then run_C16 op args
+      else if p =? 11 then run_C11 op args
       else T [L 999]
   | _ => T [L 999]
   end.
